@@ -16,6 +16,7 @@
 (*                                    among inputs(lhs) where it matters   *)
 (*   typed    {id, t, ins, out}       declared inputs/output of a lazily   *)
 (*                                    built term equal the typing rules    *)
+(*   sample   {id, f, vars, sample_inputs, result}   relational sampling   *)
 (***************************************************************************)
 EXTENDS Sem, Json, IOUtils, TLCExt
 
@@ -73,8 +74,45 @@ JudgeProject(e) ==
           exp |-> [ins |-> a.ti, out |-> a.to, pts |-> PtsOf(a.ti), tab |-> tb,
                    core |-> FALSE, dep |-> DependsOnTab(a.ti, tb), defined |-> TabDefined(tb)]])
 
+\* sample {id, f, vars, sample_inputs, result}: the relational specification of sampling.
+\* result has f's inputs plus the sample inputs and f's output; for every batch element and
+\* particle its points lie in the support of f and its total mass over the sampled
+\* variables equals f's.  (Which point was drawn is not constrained: TLC accepts any.)
+JudgeSample(e) ==
+  LET a == Ann(e.f)
+      r == Ann(e.result)
+      vs == e.vars
+      wantIns == Names(a.ti) \cup Names(e.sample_inputs)
+      massF == Ann([c |-> "Red", op |-> "logaddexp", arg |-> e.f, vars |-> vs])
+      massR == Ann([c |-> "Red", op |-> "logaddexp", arg |-> e.result, vars |-> vs])
+      es == EnvSeq(r.ti)
+  IN IF Names(r.ti) # wantIns
+        \/ \E k \in 1..Len(r.ti) :
+              r.ti[k][2] # (IF HasName(a.ti, r.ti[k][1]) THEN Lookup(a.ti, r.ti[k][1])
+                           ELSE Lookup(e.sample_inputs, r.ti[k][1]))
+     THEN Out([id |-> e.id, ok |-> FALSE, clause |-> "sample_inputs", got |-> r.ti, f_ins |-> a.ti])
+     ELSE IF r.to # a.to
+     THEN Out([id |-> e.id, ok |-> FALSE, clause |-> "sample_output", got |-> r.to])
+     ELSE LET outside == {k \in 1..Len(es) :
+                            LET x == Eval(r, es[k]) IN
+                            ~HasU(x) /\ x # Scalar(NegInf) /\ Eval(a, es[k]) = Scalar(NegInf)}
+              ems == EnvSeq(massR.ti)
+              badmass == {k \in 1..Len(ems) :
+                            LET x == Eval(massR, ems[k])  y == Eval(massF, ems[k]) IN
+                            ~HasU(x) /\ ~HasU(y) /\ x # y}
+          IN IF outside # {}
+             THEN Out([id |-> e.id, ok |-> FALSE, clause |-> "sample_outside_support",
+                       env |-> [n \in DOMAIN es[CHOOSE k \in outside : TRUE] |-> es[CHOOSE k \in outside : TRUE][n]]])
+             ELSE IF badmass # {}
+             THEN LET k == CHOOSE k \in badmass : TRUE IN
+                  Out([id |-> e.id, ok |-> FALSE, clause |-> "sample_mass",
+                       env |-> [n \in DOMAIN ems[k] |-> ems[k][n]],
+                       want |-> Eval(massF, ems[k]), got |-> Eval(massR, ems[k])])
+             ELSE Out([id |-> e.id, ok |-> TRUE, points |-> Len(es)])
+
 Judge(e) ==
   CASE e.kind = "deneq" -> JudgeDenEq(e)
+    [] e.kind = "sample" -> JudgeSample(e)
     [] e.kind = "typed" -> JudgeTyped(e)
     [] e.kind = "project" -> JudgeProject(e)
     [] OTHER -> Out([id |-> e.id, ok |-> FALSE, clause |-> "unknown_event_kind"])
